@@ -1017,7 +1017,7 @@ pub fn run(ctx: &Ctx) {
     let keys = harvest_keys();
     ctx.note("harvested_key_materials", serde_json::json!(keys.len()));
     let n = ctx.tier.pick(60_000u64, 1_500_000);
-    ctx.group("generated-packets", Source::Random { n, tape_len: 600 }, |t, rec| generated_case(t, rec, &keys));
+    ctx.group("generated-packets", Source::Random { n, tape_len: 1200 }, |t, rec| generated_case(t, rec, &keys));
     let n = ctx.tier.pick(4_000u64, 60_000);
     ctx.group("api-objects", Source::Random { n, tape_len: 120 }, api_case);
     let n = ctx.tier.pick(20_000u64, 400_000);
